@@ -39,6 +39,8 @@ struct Ctx {
     std::vector<int> code;         // per worker observation; -100 none (dropped)
     std::vector<int> resumes;
     cocls::promise<T> kept;
+    std::atomic<int> available{0};     // the promise has been handed out (possibly from INSIDE the shared_future constructor)
+    void keep(cocls::promise<T> &&pr) { kept = std::move(pr); available.store(1, std::memory_order_release); }
 
     template<class F> static int guarded(F &&fn) {
         try { return fn(); }
@@ -75,23 +77,26 @@ void run_t(const Prog &p) {
     bool all_dropped_while_pending = false;
     {
         C c; c.code.assign(p.w.size(), -100); c.resumes.assign(p.w.size(), 0);
-        std::optional<SF> sf;
-        switch (p.ck) {
-            case CK_PROMISE_KEPT: sf.emplace([&](cocls::promise<T> pr) { c.kept = std::move(pr); }); break;
-            case CK_PROMISE_RESOLVED_INSIDE: sf.emplace([&](cocls::promise<T> pr) { pr(ST<VT>::mk(42)); }); break;
-            case CK_FROM_FUTURE_PENDING: sf.emplace([&]() -> cocls::future<T> { return cocls::future<T>([&](cocls::promise<T> pr) { c.kept = std::move(pr); }); }); break;
-            case CK_FROM_FUTURE_READY: sf.emplace([&]() -> cocls::future<T> { return cocls::future<T>::set_value(ST<VT>::mk(42)); }); break;
-            default: sf.emplace(); c.kept = sf->get_promise(); break;
-        }
-        std::vector<std::thread> th;
-        for (size_t i = 0; i < p.w.size(); i++) th.emplace_back([&c, &p, i, copy = *sf]() mutable { c.worker(i, p, std::move(copy)); });
+        // the resolver thread exists BEFORE the shared_future is constructed and acts as soon as the promise is
+        // handed out - i.e. possibly while the constructor is still running (tracer registration window)
         std::thread resolver([&c, &p, pending_kind] {
-            hz::upoints(p.res_yields);
             if (!pending_kind) return;
+            while (!c.available.load(std::memory_order_acquire)) vrt::yield();
+            hz::upoints(p.res_yields);
             if (p.ra == RA_VALUE) c.kept(ST<VT>::mk(42));
             else if (p.ra == RA_EXC) c.kept(std::make_exception_ptr(val::TestExc(5)));
             else c.kept(cocls::drop);
         });
+        std::optional<SF> sf;
+        switch (p.ck) {
+            case CK_PROMISE_KEPT: sf.emplace([&](cocls::promise<T> pr) { c.keep(std::move(pr)); }); break;
+            case CK_PROMISE_RESOLVED_INSIDE: sf.emplace([&](cocls::promise<T> pr) { pr(ST<VT>::mk(42)); }); break;
+            case CK_FROM_FUTURE_PENDING: sf.emplace([&]() -> cocls::future<T> { return cocls::future<T>([&](cocls::promise<T> pr) { c.keep(std::move(pr)); }); }); break;
+            case CK_FROM_FUTURE_READY: sf.emplace([&]() -> cocls::future<T> { return cocls::future<T>::set_value(ST<VT>::mk(42)); }); break;
+            default: sf.emplace(); c.keep(sf->get_promise()); break;
+        }
+        std::vector<std::thread> th;
+        for (size_t i = 0; i < p.w.size(); i++) th.emplace_back([&c, &p, i, copy = *sf]() mutable { c.worker(i, p, std::move(copy)); });
         if (p.main_drop) sf.reset();
         bool only_droppers = true; for (auto &w : p.w) if (w.action != WA_DROP_PENDING) only_droppers = false;
         all_dropped_while_pending = p.main_drop && only_droppers && pending_kind;
